@@ -224,7 +224,9 @@ def rule_frame_counter(prog, res, rule="R-FRAME-ID"):
                      % (fid["n"], len(incs), same_block))
         hw = flds.get("hardware_frame_id")
         inst = "video_source_thread: hardware_frame_id copied from the camera's ImageInfo"
-        if isinstance(hw, dict) and (ir.ap(hw) or "").endswith("info.hardware_frame_id"):
+        gf = [c for bb, ii, ss in f.all_stmts() for c in calls(ss, "camera_get_frame")]
+        info_ap = (ir.ap(gf[0]["args"][3]) or "").lstrip("&") if gf and len(gf[0].get("args", [])) > 3 else None
+        if isinstance(hw, dict) and info_ap and (ir.ap(hw) or "") == info_ap + ".hardware_frame_id":
             res.oblige(rule, inst, True, "", f.loc(s))
         else:
             res.fail(rule, inst, "%s|hardware" % rule, f.loc(s),
@@ -281,7 +283,17 @@ def rule_passthrough(prog, res, rule="R-PASSTHROUGH"):
         cs = [c for b, i, s in f.all_stmts() for c in calls(s, callee)]
         if len(cs) != 1:
             raise AnalysisBroken("%s: expected one %s call" % (name, callee))
-        pairs[name] = (ir.ap(cs[0]["args"][0]), ir.ap(cs[0]["args"][1]))
+        # compare shapes, not spellings: local variable / parameter names are
+        # replaced by a placeholder
+        import re as _re
+        vnames = {p["n"] for p in f.params if p.get("n")}
+        for b_, i_, s_ in f.all_stmts():
+            for y in ir.walk(s_):
+                if isinstance(y, dict) and y.get("k") == "var" and y.get("n"):
+                    vnames.add(y["n"])
+        pat = _re.compile(r"(?<![\w.>])(%s)\b" % "|".join(sorted(map(_re.escape, vnames), key=len, reverse=True))) if vnames else None
+        norm = lambda a_: pat.sub("$", a_) if (pat and a_) else a_
+        pairs[name] = (norm(ir.ap(cs[0]["args"][0])), norm(ir.ap(cs[0]["args"][1])))
     a, b = pairs["acquire_map_read"], pairs["acquire_unmap_read"]
     inst = "acquire_map_read / acquire_unmap_read use the same (channel, reader)"
     ok = a == b and a[0] and a[0].endswith("sink.in") and a[1].endswith("monitor.reader") and \
